@@ -74,7 +74,12 @@ class Operands:
                 for x in ins:
                     for f in (lambda: x.to_json(), lambda: x.to_jsondict(), lambda: D.Dataset({'v': x}), lambda: D.Dataset({'v': x}).to_array(),
                               lambda: x == x, lambda: -x, lambda: abs(x), lambda: repr(x), lambda: x.to_pandas() if x.ndim in (1, 2) else None,
-                              lambda: x.sort_axis(axis=0) if x.ndim else None, lambda: D.align([x, x.ix[::-1] if x.ndim else x], sort=True)):
+                              lambda: x.sort_axis(axis=0) if x.ndim else None, lambda: D.align([x, x.ix[::-1] if x.ndim else x], sort=True),
+                              # aligning with partners that are empty / reversed / disjoint along each dimension, sorted and not
+                              lambda: [D.align([x, x.take_axis([], axis=d, indexing='position')], sort=srt, join=j) for d in x.dims for srt in (True, False) for j in ('outer', 'inner')],
+                              lambda: [D.align([x.take_axis([], axis=d, indexing='position'), x], sort=True) for d in x.dims],
+                              lambda: D.stack([x, x.ix[::-1]], axis='stacked', keys=[1, 2], align=True, sort=True) if x.ndim else None,
+                              lambda: D.concatenate([x, x], axis=0, align=True, sort=True) if x.ndim > 1 else None):
                         try: f()
                         except Exception: pass
                 return r
